@@ -315,3 +315,97 @@ def response_ok(mod: Any, status: int, kind: str, payload: Any, text: str, conte
 def missing_piece(why: str) -> bool:
     """A piece the document declares is absent from the generated code (the condition exists to report exactly that)."""
     return False
+
+
+# ------------------------------------------------------------------------------------------------ C11 / C13 / C14 helpers
+import typing as _typing
+
+
+def conforms(value: Any, hint: Any, depth: int = 0) -> bool:
+    """Is `value` an instance of the annotation `hint` at run time (int accepted for float)?"""
+    if hint is _typing.Any or hint is object:
+        return True
+    if hint is None or hint is type(None):
+        return value is None
+    origin = _typing.get_origin(hint)
+    args = _typing.get_args(hint)
+    if origin is _typing.Union:
+        for a in args:
+            if conforms(value, a, depth + 1):
+                return True
+        return False
+    if origin is _typing.Literal:
+        for a in args:
+            if type(a) is type(value) and a == value:
+                return True
+            if isinstance(value, (str, int)) and not isinstance(value, bool) and a == value and isinstance(a, type(value).__mro__[-2] if False else (str, int)):
+                return True
+        return False
+    if origin in (list, _typing.List):
+        if not isinstance(value, list):
+            return False
+        for v in value:
+            if args and not conforms(v, args[0], depth + 1):
+                return False
+        return True
+    if origin in (dict, _typing.Dict):
+        if not isinstance(value, dict):
+            return False
+        for k, v in value.items():
+            if args and not (conforms(k, args[0], depth + 1) and conforms(v, args[1], depth + 1)):
+                return False
+        return True
+    if origin is tuple:
+        return isinstance(value, tuple)
+    if isinstance(hint, _typing.TypeVar):
+        return True
+    if isinstance(hint, type):
+        if hint is float:
+            return isinstance(value, (int, float)) and not isinstance(value, bool)
+        if hint is int:
+            return isinstance(value, int) and not isinstance(value, bool)
+        return isinstance(value, hint)
+    return True  # unknown construct: do not guess
+
+
+def annotations_ok(cls: Any, d1: Any, names: Any, ns: dict) -> bool:
+    """After decoding, every attribute is an instance of its annotation; additional_properties values too."""
+    m = cls.from_dict(d1)
+    hints = _typing.get_type_hints(cls, globalns=ns, localns=ns)
+    for wire, py in names:
+        if not conforms(getattr(m, py), hints[py]):
+            return False
+    if hasattr(m, "additional_properties") and "additional_properties" in hints:
+        if not conforms(m.additional_properties, hints["additional_properties"]):
+            return False
+    return True
+
+
+def defaults_ok(cls: Any, required_kwargs: dict, expected: Any) -> bool:
+    """An instance built with no optional arguments has the declared typed defaults and encodes exactly them."""
+    m = cls(**required_kwargs)
+    out = m.to_dict()
+    for wire, py, want_json in expected:
+        got = getattr(m, py)
+        if encode(got) != want_json:
+            return False
+        if isinstance(want_json, str) and isinstance(got, str) and type(got) is not str and not hasattr(got, "value"):
+            return False
+        if out.get(wire, "<absent>") != want_json:
+            return False
+    return True
+
+
+def membership_ok(cls: Any, base: dict, wire: str, candidate: Any, listed: bool, py: str) -> bool:
+    """Decoding a listed value yields it and re-encodes to itself; decoding an unlisted value fails."""
+    d = dict(base)
+    d[wire] = candidate
+    try:
+        m = cls.from_dict(d)
+    except (ValueError, TypeError, KeyError):
+        return not listed
+    if not listed:
+        return False
+    out = m.to_dict()
+    got = out.get(wire, "<absent>")
+    return got == candidate and type(got) is type(candidate) and encode(getattr(m, py)) == candidate
